@@ -117,7 +117,7 @@ def run(ctx):
         if k in seen:
             continue
         seen.add(k)
-        ctx.violation(f"{f['class']}: {f['what']}", dict(kind="c10", **f))
+        ctx.violation(f"{f['class']}: {f['what']}", {**f, "check": "c10"})
     if disagreements and not fails:
         ctx.broken.append(f"correspondence dec: {len(disagreements)}; first: {disagreements[0]}")
         ctx.notes.append({"disagreements": disagreements[:5]})
